@@ -15,6 +15,25 @@ namespace Life
   | nil => rfl
   | cons o l ih => cases o <;> simp [ih]
 
+@[simp] theorem evs_ite_note (c : Prop) [Decidable c] (t : String) :
+    evs (if c then [Out.note t] else []) = [] := by split <;> rfl
+
+@[simp] theorem doLink_fst (a : Actor) (p : Nat) : (doLink a p).1 = { a with sup := some p } := rfl
+
+@[simp] theorem evs_doLink (a : Actor) (p : Nat) : evs (doLink a p).2 = [] := by
+  unfold doLink
+  cases a.sup with
+  | none => rfl
+  | some q => simp only [evs_cons_eff]; split <;> rfl
+
+theorem apiKill_ok_sigVal (a : Actor) (h : (apiKill a).2 = true) : (apiKill a).1.sigVal = true := by
+  unfold apiKill at h ⊢
+  split
+  · rename_i h1; simp [h1] at h
+  · split
+    · rename_i h1 h2; simp [h1, h2] at h
+    · rfl
+
 @[simp] theorem andThen_fst (x : M) (f : Actor → M) : (andThen x f).1 = (f x.1).1 := rfl
 @[simp] theorem andThen_snd (x : M) (f : Actor → M) : (andThen x f).2 = x.2 ++ (f x.1).2 := rfl
 
